@@ -506,6 +506,28 @@ fn gen_c10(out: &mut Out, rng: &mut Rng, thorough: bool) {
             out.job(move || build_line(&inp, o));
         }
     }
+    // every (mode, level, version) cell at its capacity boundary, by the implementation's own graph:
+    // a shifted table cell or a wrong count width shows up as a panic exactly here
+    for m in 0..3usize {
+        for e in 0..4usize {
+            for v in 0..40usize {
+                let cap = caps[m][e][v];
+                let deltas: Vec<usize> = if thorough { vec![0, 1, 2] } else { vec![0, 1] };
+                for d in deltas {
+                    let len = cap + d;
+                    let class = rng.below(4);
+                    let inp = content_class(rng, m, len, class);
+                    let mode = if rng.chance(1, 2) || m != 2 { Some(m) } else { None };
+                    let forced = match rng.below(3) {
+                        0 => Some(v),
+                        _ => None,
+                    };
+                    let o = Opts { ecl: Some(e), mode, version: forced, mask: if rng.chance(1, 2) { Some(rng.below(8)) } else { None } };
+                    out.job(move || build_line(&inp, o));
+                }
+            }
+        }
+    }
     // malformed stream
     for _ in 0..(if thorough { 600 } else { 80 }) {
         let len = rng.range(1, 300);
